@@ -145,6 +145,7 @@ type Sim struct {
 	earliest                map[string]time.Time
 	rejectedIno             map[string]uint64
 	positiveOverRejected    map[string]bool
+	faultedNames            map[string]bool // names carried by a data / recovery request that was served with a fault
 	flipsAfterStop          int
 	rejectedAt              map[string]int // name|hash -> wire sequence number at which a complete but corrupt staged copy of that version was last seen
 	voidBefore              map[string]int // name|hash -> acknowledgements up to this sequence number are void AND the sender has been told so (failed verdict)
@@ -165,7 +166,7 @@ type Sim struct {
 func NewSim(t *vt.T, prop string, conf SimConf) *Sim {
 	w := NewWorld(t, prop)
 	s := &Sim{t: t, prop: prop, w: w, conf: conf, dead: map[int]bool{}, versions: map[string][]*srcVersion{},
-		deleted: map[string]bool{}, tainted: map[string]bool{}, lastMtime: map[string]time.Time{}, pollMismatch: map[string]bool{}, positiveOverRejected: map[string]bool{}, listedAt: map[int]map[string][]rng{}, heldAt: map[int]map[string]bool{}, positivePolls: map[string]bool{}, faultKinds: map[int]int{}, retransAllowed: map[string]bool{}, others: w.others}
+		deleted: map[string]bool{}, tainted: map[string]bool{}, lastMtime: map[string]time.Time{}, pollMismatch: map[string]bool{}, positiveOverRejected: map[string]bool{}, faultedNames: map[string]bool{}, listedAt: map[int]map[string][]rng{}, heldAt: map[int]map[string]bool{}, positivePolls: map[string]bool{}, faultKinds: map[int]int{}, retransAllowed: map[string]bool{}, others: w.others}
 	s.srcDir = filepath.Join(w.dir, "src")
 	s.cacheDir = filepath.Join(w.dir, "cache")
 	s.sentDir = filepath.Join(w.dir, "sentlog")
@@ -808,6 +809,14 @@ func (s *Sim) Serve(r *req, f Fault) {
 		s.faults++
 		s.faultKinds[f.Kind]++
 		s.lastPerturb = time.Now()
+		if r.pl != nil {
+			// the files of a request that failed in any way may legitimately travel again
+			s.mu.Lock()
+			for _, p := range r.pl.GetParts() {
+				s.faultedNames[p.GetName()] = true
+			}
+			s.mu.Unlock()
+		}
 	}
 	switch r.kind {
 	case "partials":
